@@ -260,8 +260,8 @@ func renderLog(log []Event, max int) []string {
 		}
 		if e.Detail != "" {
 			d := e.Detail
-			if len(d) > 600 {
-				d = d[:600] + "…"
+			if len(d) > 3000 {
+				d = d[:3000] + "…"
 			}
 			line += " " + d
 		}
